@@ -394,6 +394,19 @@ def _run_pq(ctx, ops, abandon=False):
     mixed_elems = len(ops) % 2 == 1
     if mixed_elems:
         ctx.cls("pq:elements_of_mixed_kinds")
+    # the same element queued several times with different (or equal) priorities, as a shortest-path search does: every pushed entry is an item
+    repeated = len(ops) % 3 == 1
+    if repeated:
+        ctx.cls("pq:same_element_pushed_several_times")
+    elem_of = {}
+
+    def who(it):
+        """uid of a pending entry carrying this element and this priority (any of them), else of one carrying this element, else None."""
+        r = repr(it.x)
+        c = [u_ for u_ in pending if elem_of[u_] == r and (pending[u_] == it.priority)]
+        if not c:
+            c = [u_ for u_ in pending if elem_of[u_] == r]
+        return c[0] if c else None
     handed = set()
     uid = 0
     pops, tie_pops = 0, 0
@@ -402,8 +415,10 @@ def _run_pq(ctx, ops, abandon=False):
         name = op[0]
         if name == "push":
             # queued elements of unrelated kinds (only the priorities are ever compared: tied items need not be mutually orderable)
-            elem = [("item", uid), "item%d" % uid, uid, ("item", str(uid)), frozenset([uid]), (uid, None)][uid % 6] if mixed_elems else ("item", uid)
+            eid_ = uid % 3 if repeated else uid
+            elem = [("item", eid_), "item%d" % eid_, eid_, ("item", str(eid_)), frozenset([eid_]), (eid_, None)][eid_ % 6] if mixed_elems else ("item", eid_)
             uid_of[repr(elem)] = uid
+            elem_of[uid] = repr(elem)
             ctx.call("push", q.push, elem, op[1], monitor="pq_model")
             pending[uid] = op[1]
             uid += 1
@@ -414,7 +429,7 @@ def _run_pq(ctx, ops, abandon=False):
             else:
                 if not ctx.check(ok, "pq_model", name, "pop_failed", "pop on a non-empty queue raised IndexError", pending=len(pending)):
                     continue
-                u = uid_of.get(repr(it.x))
+                u = who(it)
                 mn = min(pending.values())
                 ctx.check(u in pending, "pq_model", name, "not_pending",
                           "popped item is not pending (never pushed or handed out twice)", item=it.x, already=(u in handed))
@@ -429,7 +444,7 @@ def _run_pq(ctx, ops, abandon=False):
         elif name == "front":
             if pending:
                 ok, it = ctx.call("front", lambda: q.front, monitor="pq_model")
-                u = uid_of.get(repr(it.x))
+                u = who(it)
                 ctx.check(u in pending and it.priority == min(pending.values()), "pq_model", "front", "not_minimum",
                           "front is not a pending item of minimum priority", got=it.priority, want=min(pending.values()))
         ok, e = ctx.call("empty", q.empty, monitor="pq_model")
@@ -444,7 +459,7 @@ def _run_pq(ctx, ops, abandon=False):
         ok, it = ctx.call("pop", q.pop, expect=(IndexError,), monitor="pq_model")
         if not ctx.check(ok, "pq_model", "drain", "lost_item", "queue ran empty while items are still pending", pending=len(pending)):
             break
-        u = uid_of.get(repr(it.x))
+        u = who(it)
         mn = min(pending.values())
         if not ctx.check(u in pending and it.priority == mn, "pq_model", "drain", "not_minimum_or_duplicate",
                          "drained item is not a pending minimum", got=it.priority, want=mn, item=it.x):
